@@ -369,7 +369,8 @@ func (c *Real64) BesselI(v float64, b ConstScalar) Scalar {
   v0 := special.BesselI(v, x)
   f1 := func() float64 {
     v1 := special.BesselI(v-1.0, x)
-    return v1 - v/x*v0
+    v2 := special.BesselI(v+1.0, x)
+    return 0.5*(v1 + v2)
   }
   f2 := func() float64 {
     v1 := special.BesselI(v-2.0, x)
